@@ -564,6 +564,10 @@ def run_case(chk, case, enumerate_all=False):
                 for op, resp in zip(("fslistx", "fslistsized"), resps):
                     model_after = sorted((it[0], int(it[1])) for it in dec(resp)) if resp.strip().startswith("[") else resp
                     if model_after != real_after:
+                        if isinstance(model_after, str):     # the model refuses a run the real code completed
+                            chk.corr_break(op, dict(case=case, crash_point=cp, model=model_after,
+                                                    only_impl=real_after[:20]))
+                            return
                         chk.corr_break(op, dict(case=case, crash_point=cp,
                                                 only_model=[x for x in model_after if x not in real_after][:20],
                                                 only_impl=[x for x in real_after if x not in model_after][:20]))
